@@ -21,6 +21,10 @@ CHECKS = {
  'C07': dict(level='exploration', ref='3/C07', technique='self-consistency monitor (constant context vs run-time twin on volatile operands in one chibicc-compiled run) + Python C11 model == gcc == clang; cc1 wait-status monitor (ASan/UBSan build) for division by zero in every constant position',
              text='Random constant expressions over literals of every C11 literal type, sizeof, enum constants and all operators are placed in 11 constant-demanding positions and evaluated once more at run time on volatile copies of the same operands; disagreement between the two, or with the model, is a violation. Floating constant expressions are compared bit-exactly static vs run time. 143 undefined-expression x position cells are run through the sanitizer build and must end in a located diagnostic.',
              note='gcc/clang -O0 as references; INT_MIN/-1 treated as undefined (any non-crash outcome accepted)'),
+
+ 'C02': dict(level='exploration', ref='3/C02', technique='differential execution monitor on raw object representations (gcc == clang as executable references, exact Fraction domain monitor for fp->int) + x87/MXCSR control-word statement probes in the emitted code',
+             text='Floating operands are bit patterns read from run-time tables; every observation records the 4/8/10 significant bytes of the result. Operators x type pairs x value classes and all conversions with a floating side are walked as a grid over boundary classes (zeros, denormals, 2^24, 2^31, 2^32, 2^53, 2^63, 2^64-1, inf, NaNs, halfway cases), in cast/assignment/argument/return/op=/variadic contexts, plus literals and random composites. The chibicc build carries statement probes that check the x87 control word and MXCSR after every statement.',
+             note='gcc -O0 == clang -O0 trusted where they agree; NaN payload/sign ignored; out-of-range fp->int not generated (undefined)'),
 }
 REASON_WIP = 'check not built yet in this session (planned, see DESIGN.md section 3); will be claimed once its monitor is silent on the unchanged tree'
 
